@@ -27,3 +27,28 @@ def black_changes_fragment_value(ename, case, fail, obs):
         return ast.literal_eval(out.strip()) != want
     except Exception:  # noqa: BLE001
         return False
+
+
+def crlf_rewritten_as_lf(ename, case, fail, obs):
+    """KF-C03-1 / KF-C20-1: a file with CRLF line ends is read with universal newlines and written back with
+    LF everywhere.  Matches only the byte-level clauses, only for CRLF inputs, and only when the same file
+    compared with its own LF-normalised form shows no difference outside the snapshot() arguments."""
+    if ename != "rewrite" or not case.get("crlf"):
+        return False
+    if fail[1] not in ("bytes_outside_preserved", "dirty_not_reformatted"):
+        return False
+    from .engines import rewrite as R
+    try:
+        b = obs["before"].replace("\r\n", "\n").encode("utf-8", "surrogateescape")
+        a = obs["after"].encode("utf-8", "surrogateescape")
+        if b"\r" in a:
+            return False
+        ob = b"\x00".join(R.outside(b, R.call_spans(b)))
+        oa = b"\x00".join(R.outside(a, R.call_spans(a)))
+        for name in (b"HasRepr", b"external"):
+            ins = b"\nfrom inline_snapshot import " + name + b"\n"
+            if ins in oa and ins not in ob:
+                oa = oa.replace(ins, b"", 1)
+        return ob == oa
+    except Exception:  # noqa: BLE001
+        return False
